@@ -546,10 +546,24 @@ def header(kind, cs, ctor, p2e, sched=False):
     return h
 
 
+def _excl(obj):
+    """the match strings of an exclusion list; a bookkeeping object of another shape is observed as unreadable (the model then
+    disagrees: the correspondence no longer holds and the monitors decide whether the property still does)"""
+    es = getattr(obj, "excl_set", None)
+    if es is None and isinstance(obj, dict):
+        es = obj.get("excl_set")
+    if es is None:
+        return ["<unreadable:%s>" % type(obj).__name__]
+    try:
+        return sorted(es)
+    except TypeError:
+        return ["<unreadable:%s>" % type(obj).__name__]
+
+
 def searcher_state(kind, s):
     if kind == "random":
         cf = s._config_for_trial_id or {}
-        out = {"n_p2e": len(s._points_to_evaluate), "excl": sorted(s._excl_list.excl_set),
+        out = {"n_p2e": len(s._points_to_evaluate), "excl": _excl(s._excl_list),
                "cfg_for": [[int(t), enc_config(c)] for t, c in cf.items()]}
         if getattr(s, "_caller", None) is not None:
             # restrict_configurations: the remaining list (None and [] are different states), the marked
@@ -561,7 +575,7 @@ def searcher_state(kind, s):
             out["caller"] = [enc_config(c) for c in s._caller]
         return out
     return {"n_p2e": len(s._points_to_evaluate), "next_index": int(s._next_index),
-            "all_init": sorted(s._all_initial_configs.excl_set)}
+            "all_init": _excl(s._all_initial_configs)}
 
 
 def init_output(kind, cs, s):
@@ -698,8 +712,8 @@ def run_searcher_scenario(spec):
                 events.append({"ev": "clone-error", "err": errname(e), "via": via})
                 continue
             # (a state lacking the exclusion set is observed as an empty one: the model then disagrees)
-            order = list(state.get("excl_list", {}).get("excl_set", [])) if kind == "random" \
-                else list(state.get("all_initial_configs", {}).get("excl_set", []))
+            sub = state.get("excl_list", {}) if kind == "random" else state.get("all_initial_configs", {})
+            order = list(sub.get("excl_set", [])) if isinstance(sub, dict) else ["<unreadable:%s>" % type(sub).__name__]
             inp["order"] = order
             s = new
             note_caller(s, "clone")
@@ -1022,7 +1036,7 @@ def run_gp_scenario(spec):
                 seen.append((dict(o), dict(p)))
                 yield o, p
 
-        excl = sorted(exclusion_candidates.excl_set)
+        excl = _excl(exclusion_candidates)
         res = real_pick(gen(), exclusion_candidates, num_candidates, duplicate_detector)
         picks.append((excl, seen, num_candidates, [dict(c) for c in res]))
         return res
@@ -1073,7 +1087,7 @@ def run_gp_scenario(spec):
                     events.append({"ev": "pick-unencodable", "why": str(e)})
                 events.append({"ev": "bo_pick", "excl": excl, "result": res, "pairs": seen})
             if sg is None:
-                events.append({"ev": "none", "excl": sorted(sch.searcher._get_exclusion_candidates().excl_set)})
+                events.append({"ev": "none", "excl": _excl(sch.searcher._get_exclusion_candidates())})
                 break
             if not sg.spawn_new_trial_id:
                 rt = int(sg.checkpoint_trial_id)
@@ -1097,7 +1111,7 @@ def run_gp_scenario(spec):
                            "pending": [[str(p.trial_id), None if p.resource is None else int(p.resource)] for p in dec.pending_evaluations],
                            "failed": [str(t) for t in dec.failed_trials],
                            "observed": [str(e.trial_id) for e in dec.trials_evaluations],
-                           "all_ms": sorted(sch.searcher._get_exclusion_candidates().excl_set)}
+                           "all_ms": _excl(sch.searcher._get_exclusion_candidates())}
                     lines.append(({"op": "codec", "enc": to_tagged(enc)}, out))
                     # field-wise equality (TuningJobState.__eq__ compares PendingEvaluation objects by identity)
                     same = (dec.config_for_trial == st.config_for_trial and dec.trials_evaluations == st.trials_evaluations
